@@ -146,7 +146,7 @@ def run(ctx):
         # feeding the program's own hydrogens back with -k reproduces the results (amino-acid structures, one conformation)
         b0 = base[()]
         if not b0.error and len(b0.mol.conformation_names) == 1 and all(l.startswith("ATOM") or not pdbgen.is_atom(l) for l in lines):
-            hl = c04.dump_with_h(b0)
+            hl = c04.dump_with_h(b0, text)
             o = observe.run(pdbgen.text(hl), ["-k"], want_text=False)
             ctx.case(key=(name, "keep-protons round trip"))
             ctx.count("keep-protons round trips")
